@@ -163,7 +163,7 @@ def model_wire_lines(toks, flat):
     return lines
 
 
-def check_message(ctx, case, toks, b, tag):
+def check_message(ctx, case, toks, b, tag, converters=True):
     try:
         with lib.time_limit(120):
             m, flat, res = impl_views(b)
@@ -190,7 +190,7 @@ def check_message(ctx, case, toks, b, tag):
             if flat_s != want or same != 'same' or int(nxt) != n_vals:
                 ctx.violation({'kind': 'C09-flat-order', 'case': case, 'subset': si, 'flat': flat_s[:200], 'n': n_vals},
                               'hierarchical view does not contain every index once in flat order')
-    if res[0] == 'ok':
+    if res[0] == 'ok' and converters:
         agree = converters_agree(m)
         cause = agree.pop('nested-text-cause', None)
         for fmt, ok in agree.items():
@@ -199,7 +199,7 @@ def check_message(ctx, case, toks, b, tag):
                 if fmt == 'nested-text' and cause:
                     rec['cause'] = cause
                 ctx.violation(rec, '%s: %s does not convert back to the flat JSON (%r)' % (tag, fmt, ok))
-    else:
+    elif res[0] != 'ok':
         ctx.dist['wire-error-%d' % res[1]] += 1
 
 
